@@ -137,6 +137,59 @@ impl DmlExecutor {
         Ok(())
     }
 
+    /// Checks every row of a multi-row INSERT before the first one is stored: each row against
+    /// the table's constraints, and the rows against each other for duplicate unique keys.
+    /// (A row that fails after earlier rows of the same statement were stored cannot be taken
+    /// back on its own; inside an explicit transaction those rows would stay and be committed.)
+    pub(crate) fn validate_rows_for_insert(
+        &self,
+        table_id: ObjectId,
+        columns: &[usize],
+        rows: &[Row],
+    ) -> RuntimeResult<()> {
+        let tree_builder = self.ctx.tree_builder();
+        let snapshot = self.ctx.snapshot().clone();
+        let relation = self
+            .ctx
+            .catalog()
+            .get_relation(table_id, &tree_builder, &snapshot)?;
+        let schema = relation.schema().clone();
+        let indexes = relation.get_indexes();
+        let mut seen: Vec<HashSet<Vec<DataType>>> = vec![HashSet::new(); indexes.len()];
+
+        for values in rows {
+            let full_row = self.build_full_row(&schema, columns, values, relation.next_row_id())?;
+            self.validate_insert_constraints(&relation, full_row.as_slice())?;
+
+            for (index, keys) in indexes.iter().zip(seen.iter_mut()) {
+                let key: Vec<DataType> = index
+                    .indexed_column_ids()
+                    .iter()
+                    .filter_map(|&idx| full_row.as_slice().get(idx).cloned())
+                    .collect();
+                if key.iter().any(|v| v.is_null()) {
+                    continue;
+                }
+                if !keys.insert(key) {
+                    let col_names: Vec<&str> = index
+                        .indexed_column_ids()
+                        .iter()
+                        .filter_map(|&idx| schema.column(idx).map(|c| c.name()))
+                        .collect();
+                    return Err(crate::runtime::validator::ValidationError::UniqueConstraintViolated(
+                        crate::schema::DatabaseItem::Column(
+                            col_names.join(","),
+                            relation.name().to_string(),
+                        ),
+                    )
+                    .into());
+                }
+            }
+        }
+
+        Ok(())
+    }
+
     /// Inserts a new row into the specified table.
     ///
     /// # Arguments
